@@ -13,6 +13,8 @@ TARGETS = {
     "t_copy": dict(variant="asan", srcs=["t_copy.cc"], libs=RC),
     "t_vector": dict(variant="asan", srcs=["t_vector.cc"], libs=RC + " -lpthread"),
     "t_threads": dict(variant="tsan", srcs=["t_threads.cc"], libs=RC + " -lpthread"),
+    "fuzz_ovmb": dict(variant="fuzzrel", srcs=["fuzz_ovmb.cc"], libs="", ldflags="-fsanitize=fuzzer"),
+    "fuzz_ascii": dict(variant="fuzzrel", srcs=["fuzz_ascii.cc", "ascii_shim_poly.cc", "ascii_shim_tet.cc", "ascii_shim_hex.cc"], libs="", ldflags="-fsanitize=fuzzer"),
     "t_handles": dict(variant="opt", srcs=["t_handles.cc"], libs="-lpthread"),
 }
 
@@ -367,9 +369,35 @@ CHECKS = {
         level_text="Exploration: every const API group executed concurrently by 2-16 threads under ThreadSanitizer on generated meshes.",
         level_note="Does not enumerate interleavings; a race needs both accesses to be executed by different threads in one run (no lock-based synchronisation exists in the library today).",
     ),
+    "C07": dict(
+        kind="libfuzzer", fuzzers=["fuzz_ovmb", "fuzz_ascii"], target="fuzz_ovmb", level="exploration", engine="libFuzzer",
+        quick=dict(workers=16, seconds=60, corpora=["seeded"]),
+        thorough=dict(workers=16, seconds=480, corpora=["seeded", "empty"]),
+        rule=("coverage-guided libFuzzer campaigns (ASan + UBSan + _GLIBCXX_ASSERTIONS, NDEBUG) against ovmb_read and "
+              "FileManager::readStream for polyhedral / tetrahedral / hexahedral meshes x topology_check x bottom_up "
+              "(selector byte). Mode A: raw bytes. Mode B (structure-aware): an edit script decoded with "
+              "FuzzedDataProvider is applied to a valid file (reference-encoder output of built-in meshes / valid text "
+              "files): numeric header, chunk-header and sub-header fields replaced by boundary values or original+-1, "
+              "chunks dropped / duplicated / moved, truncation, byte splices; tokens / lines of the text format "
+              "dropped, repeated or replaced by non-numeric text and boundary numbers. Oracle inside the target: "
+              "sanitizer-clean, the call returns (result code, bool or std::exception), and on success every stored "
+              "handle designates an existing entity, every property has one element per entity and the mesh can be "
+              "traversed with bottom-up incidences rebuilt. Seed corpus: the repository's test files + structure-aware "
+              "seeds, format dictionaries. Inputs declaring > 10^6 entities (or > 6-digit integers in text) are "
+              "skipped and counted. non-trivial = input passes the magic / header (OVMB) resp. reaches the Vertices "
+              "section (ASCII); distinct = distinct input hash, reported as the largest per-process count (a lower "
+              "bound of the union)"),
+        assumptions=["-timeout=10: a timeout artifact counts only if the replay of a < 64 KB input reproducibly fails to terminate",
+                     "libFuzzer seeds pin a campaign only approximately; the saved artifact is the reproducible unit"],
+        technique="coverage-guided fuzzing (libFuzzer) with structure-aware mutation and an in-target validity post-condition",
+        level_text="Coverage-guided byte-level and structure-aware fuzzing of both readers under sanitizers with a semantic post-condition.",
+        level_note="Declared sizes beyond 10^6 are excluded from the campaigns (allocator behaviour only).",
+    ),
 }
 
 ENGINES = [
+    {"name": "libFuzzer", "path": "/verif/harness", "serves_properties": ["C07"],
+     "kind_free_text": "clang libFuzzer targets fuzz_ovmb / fuzz_ascii with ASan+UBSan and an in-target post-condition"},
     {"name": "rapidcheck", "path": "/verif/harness", "serves_properties": sorted(CHECKS.keys()),
      "kind_free_text": "C++ rapidcheck targets over op programs; python driver ./check (workers, ddmin, replay, evidence)"},
 ]
